@@ -113,15 +113,39 @@ def limit : P (Option Limit) := do
       | _, _ => failure
     | _ => failure
 
-/-- `B cols rows limit trim nlines line…`; the view is the last `rows` lines -/
-def buffer : P Buffer := do
+/-- `=S:N` : the first N lines are the first N lines of slot S of the previous record -/
+def prefixRef (prev : List (List Line)) : P (List Line) := do
+  -- optional (uncompressed traces have no `=S:N` token)
+  match (← get) with
+  | [] => pure []
+  | t0 :: _ =>
+  if !(t0.startsWith "=") then pure [] else
+  let t ← tok
+  match t.toList with
+  | '=' :: rest =>
+    match (String.ofList rest).splitOn ":" with
+    | [s, n] =>
+      match s.toNat?, n.toNat? with
+      | some s, some n =>
+        if n = 0 then pure [] else
+        match prev[s]? with
+        | some ls => if n ≤ ls.length then pure (ls.take n) else failure
+        | none => failure
+      | _, _ => failure
+    | _ => failure
+  | _ => failure
+
+/-- `B cols rows limit trim nlines =S:N line…`; the view is the last `rows` lines -/
+def buffer (prev : List (List Line)) : P Buffer := do
   expect "B"
   let cols ← nat
   let rows ← nat
   let lim ← limit
   let trim ← bool
   let n ← nat
-  let ls ← many line n
+  let pre ← prefixRef prev
+  let rest ← many line (n - pre.length)
+  let ls := pre ++ rest
   if rows ≤ ls.length then
     let k := ls.length - rows
     pure { sb := ls.take k, view := ls.drop k, cols := cols, rows := rows, limit := lim, trimNeeded := trim }
@@ -180,7 +204,7 @@ def parser : P Parser := do
   pure { state := st, params := params, curParam := cp, intermediate := im }
 
 /-- `T …` (see src/terminal/verif.rs) -/
-def terminal : P Terminal := do
+def terminal (prev : List (List Line)) : P Terminal := do
   expect "T"
   let cols ← nat
   let rows ← nat
@@ -208,8 +232,8 @@ def terminal : P Terminal := do
   let nt ← nat
   let tabs ← many nat nt
   let dirty ← dirtyBits
-  let b ← buffer
-  let ob ← buffer
+  let b ← buffer prev
+  let ob ← buffer prev
   pure { cols := cols, rows := rows, buffer := b, otherBuffer := ob,
          activeBufferType := if alt then .alternate else .primary, scrollbackLimit := lim,
          cursor := ⟨ccol, crow, cvis⟩, pen := p, charsets := (cs0, cs1), activeCharset := acs,
@@ -218,8 +242,9 @@ def terminal : P Terminal := do
          topMargin := tm, bottomMargin := bm, savedCtx := sc, alternateSavedCtx := asc,
          dirtyLines := dirty, xtwinops := xtw }
 
-def vt : P Vt := do
-  let t ← terminal
+/-- `prev` = the line lists of (buffer, other_buffer) in the previous record of this instance -/
+def vt (prev : List (List Line)) : P Vt := do
+  let t ← terminal prev
   let p ← parser
   pure { parser := p, terminal := t }
 
